@@ -8,6 +8,14 @@ and a real `WorkerPool`):
   kind 'run'     : WorkerPool.run(task)
   kind 'f21'     : 'sharded' with a directed hand-off: the worker dies between the coroutine's hand-over of the
                    shard's state and the completion of the coroutine (event-loop thread held for 0.25 s there)
+  kind 'gen'     : WorkerPool.iterate(generator tasks, generator_result_queue=q): plain generator tasks whose RETURN
+                   VALUE is drawn from a library holding every falsy value class (0, 0.0, False, '', [], {}, (), None,
+                   b'') next to truthy ones - "every task's result is delivered exactly once" whatever the value
+  kind 'shutdown': 'sharded' where one worker is STOPPED (stop()/SIGTERM) while its generator is inside a slow next():
+                   the in-flight next_batch and every init_generator it still receives answer "shutdown requested"
+                   (a RETRIABLE outcome: the run must go on with the other worker), then it goes away for real
+  optional `lat` : [[worker, counted call index, ms], ..] - the REPLY of that call is held back (RPC latency / reply
+                   order as an environment choice; harness.lib_sched_ext.ReplyLatency)
 Model: lean/MlModel/Model/Sched.lean (`AC`, `IT`), theorems lean/MlModel/Properties/C06.lean.
 
 Case format (JSON): {kind, workers, plans:[[fate,..] per worker], ...}
@@ -26,11 +34,12 @@ import itertools
 import queue
 
 from harness import lib_sched as L
+from harness import lib_sched_ext as X
 from harness.core import err_kind
 
 PID = 'C06'
 TITLE = 'Distributed runs survive worker timeouts and deaths: no lost or doubled work'
-LEAN_MODULES = ['MlModel.Properties.C06', 'MlModel.Witness.C06']
+LEAN_MODULES = ['MlModel.Properties.C06', 'MlModel.Properties.C06Val', 'MlModel.Witness.C06']
 TRUSTED = [
     'the courier transport is harness/fakecourier (in-process): at-most-once handler execution, deadline errors carry '
     'code 4, an unreachable server completes no call, arguments/results are passed by reference (the repo pickles them)',
@@ -92,6 +101,13 @@ def gen_cases(ctx):
     ctx.count('faults_per_case', nf)
     if c.get('fail_at') is not None or c.get('bad'):
       ctx.count('task_error', 'yes')
+    if c.get('pipe'):
+      ctx.count('pipe', c['pipe'])
+    if c.get('lat'):
+      ctx.count('latency', len(c['lat']))
+    if c['kind'] == 'gen':
+      for t in c['tasks']:
+        ctx.count('gen_return', X.canon_value(X.RETURNS[t['rc']]))
     yield c
 
 
@@ -136,7 +152,7 @@ def _gen_cases(ctx):
     if not usable_by_plan(plans, w) and rng.random() < 0.9:
       plans[rng.randrange(w)] = [('restart' if f == 'die' else f) for f in plans[0]]
     plans = [_strip(p) for p in plans]
-    c = dict(kind='sharded', workers=w, shards=s, n=n, pipe=rng.choice(['p0', 'p1', 'p2']), plans=plans,
+    c = dict(kind='sharded', workers=w, shards=s, n=n, pipe=rng.choice(['p0', 'p1', 'p2', 'p3']), plans=plans,
              threshold=rng.choice([0, 1, 2, 3, 50]))
     if rng.random() < 0.1:
       c['fail_at'] = rng.randrange(n)
@@ -168,6 +184,55 @@ def _gen_cases(ctx):
     for bad in (False, True):
       yield dict(kind='run', workers=w, plans=[[] for _ in range(w)], bad=bad)
   yield dict(kind='run', workers=2, plans=[['deadline'], ['deadline']], bad=False)
+  # --- generator tasks with arbitrary (falsy / truthy) return values
+  nret = len(X.RETURNS)
+  yield dict(kind='gen', workers=2, tasks=[dict(k=i % 3, rc=i) for i in range(nret)], plans=[[], []], threshold=3)
+  for w in (1, 2, 3):
+    for rc in X.FALSY:
+      yield dict(kind='gen', workers=w, tasks=[dict(k=0, rc=rc), dict(k=2, rc=rc), dict(k=1, rc=(rc + 9) % nret)],
+                 plans=[[] for _ in range(w)], threshold=3)
+  for (w, nt) in [(1, 1), (2, 2)]:
+    for wi in range(w):
+      for idx in range(5):
+        for f in FAULTS:
+          if f == 'die' and w == 1:
+            continue
+          plans = [[] for _ in range(w)]
+          plans[wi] = ['ok'] * idx + [f]
+          yield dict(kind='gen', workers=w, tasks=[dict(k=(idx + j) % 2, rc=X.FALSY[(idx + wi + j) % len(X.FALSY)])
+                                                   for j in range(nt)],
+                     plans=plans, threshold=(0 if (idx + len(f)) % 4 == 0 else 3))
+  for _ in range(60 if quick else 1200):
+    w = rng.choice([1, 2, 2, 3])
+    nt = rng.randrange(1, 5)
+    plans = [['ok'] * 6 for _ in range(w)]
+    for _ in range(rng.choice([0, 1, 1, 2, 3])):
+      plans[rng.randrange(w)][rng.randrange(6)] = rng.choice(FAULTS + ['deadline', 'restart'])
+    if not usable_by_plan(plans, w):
+      plans[rng.randrange(w)] = [('restart' if f == 'die' else f) for f in plans[0]]
+    yield dict(kind='gen', workers=w, plans=[_strip(p) for p in plans], threshold=rng.choice([0, 1, 3, 50]),
+               tasks=[dict(k=rng.randrange(0, 3), rc=rng.choice(X.FALSY + list(range(nret)))) for _ in range(nt)])
+  # --- a worker stopped while its generator is inside a slow next() (shutdown replies are retriable)
+  for (s, n, pipe) in ([(2, 4, 'p0'), (3, 6, 'p1'), (2, 5, 'p3'), (3, 7, 'p2')] if quick else
+                       [(s, n, p) for s in (2, 3) for n in (4, 5, 7) for p in ('p0', 'p1', 'p2', 'p3')]):
+    yield dict(kind='shutdown', workers=2, shards=s, n=n, pipe=pipe, plans=[[], []], threshold=999999)
+  # --- reply latency / reply order as an environment choice
+  for _ in range(30 if quick else 500):
+    w = rng.choice([2, 2, 3])
+    s = rng.choice([1, 2, 3])
+    n = rng.randrange(max(1, s - 1), s + 4)
+    plans = [['ok'] * 6 for _ in range(w)]
+    for _ in range(rng.choice([0, 1, 1, 2])):
+      plans[rng.randrange(w)][rng.randrange(6)] = rng.choice(['deadline', 'deadline_after', 'restart', 'deadline'])
+    lat = [[rng.randrange(w), rng.randrange(6), rng.choice([2, 5, 10, 20])] for _ in range(rng.choice([1, 2, 3]))]
+    yield dict(kind='sharded', workers=w, shards=s, n=n, pipe=rng.choice(['p0', 'p1', 'p2', 'p3']),
+               plans=[_strip(p) for p in plans], threshold=rng.choice([1, 3, 50]), lat=lat)
+  # --- chains with several aggregating stages (each stage's states are merged from the same one-shot stream)
+  for (w, s, n) in [(1, 1, 2), (2, 2, 3), (2, 3, 5)]:
+    for pipe in ('p3', 'p4'):
+      yield dict(kind='sharded', workers=w, shards=s, n=n, pipe=pipe, plans=[[] for _ in range(w)], threshold=3)
+      yield dict(kind='sharded', workers=w, shards=s, n=n, pipe=pipe, plans=[['ok', 'deadline']] + [[] for _ in range(w - 1)],
+                 threshold=3)
   # --- directed hand-off (F21)
   for (s, n) in ([(1, 2), (2, 3)] if quick else [(1, 1), (1, 2), (1, 3), (2, 3), (2, 4), (3, 5)]):
     for pipe in ('p0', 'p1'):
@@ -184,10 +249,34 @@ def _strip(p):
 # ------------------------------------------------------------------------------------------ real code
 
 def run_impl(case):
+  """One run; a run reported as HANG although a worker stays usable is run once more with a three times longer
+  wall-clock limit before it counts: 'hang' is decided by a wall-clock guard, and on a heavily loaded machine a
+  long-lived pool process can exceed 8 s without hanging (seen once in 18853 thorough-tier cases, not reproducible in
+  ~2000 replays).  A real hang hangs again; a hang that does not repeat is recorded in the observation
+  (`hang_not_reproduced`) and counted in the evidence."""
+  global TIMEOUT
+  obs = _run_impl(case)
+  if isinstance(obs, dict) and obs.get('outcome') == 'hang' and case['kind'] in ('sharded', 'gen', 'shutdown') \
+      and usable_by_plan(case['plans'], case['workers']):
+    old = TIMEOUT
+    TIMEOUT = 3 * old
+    try:
+      obs2 = _run_impl(case)
+    finally:
+      TIMEOUT = old
+    if obs2.get('outcome') != 'hang':
+      obs2['hang_not_reproduced'] = 1
+      return obs2
+  return obs
+
+
+def _run_impl(case):
   kind = case['kind']
-  if kind in ('sharded', 'f21'):
-    obs = run_sharded(case)
+  if kind in ('sharded', 'f21', 'shutdown'):
+    obs = run_shutdown(case) if kind == 'shutdown' else run_sharded(case)
     obs['nonempty'] = [s for s, size in enumerate(L.shard_sizes(case['n'], case['shards'])) if size]
+  elif kind == 'gen':
+    obs = run_gen(case)
   elif kind == 'ac':
     obs = run_ac(case)
   elif kind == 'run':
@@ -196,7 +285,7 @@ def run_impl(case):
     raise ValueError(kind)
   obs['kind'] = kind
   obs['faultfree'] = all(f == 'ok' for p in case['plans'] for f in p) and not case.get('bad') \
-      and case.get('fail_at') is None and kind != 'f21'
+      and case.get('fail_at') is None and kind not in ('f21', 'shutdown')
   obs['proj'] = project(case, obs)     # the observation in the model's vocabulary (used by `compare`)
   return obs
 
@@ -247,6 +336,7 @@ def run_sharded(case):
   batches = []
   info = {}
   f21 = case['kind'] == 'f21'
+  lat = _latency(cl, case)
   if f21:
     import threading
     import time as real_time
@@ -289,12 +379,118 @@ def run_sharded(case):
     if f21:
       obs['killed'] = info.get('killed')
       obs['kill_at'] = info.get('kill_at')
+    if lat is not None:
+      obs['delayed'] = len(lat.delayed)
     return obs
   finally:
+    if lat is not None:
+      lat.close()
     if f21:
       _HookQueue.hook = None
       ns.orchestrate.queue = queue
       ns.courier_worker.queue = queue
+    cl.close(hung=False)
+
+
+def _latency(cl, case):
+  """Reply latency of chosen counted calls: `lat` = [[worker, counted call index, ms], ..]."""
+  if not case.get('lat'):
+    return None
+  want = {(cl.names[w], i): ms / 1000.0 for w, i, ms in case['lat'] if w < len(cl.names)}
+  return X.ReplyLatency(lambda call: want.get((call.address, call.index)))
+
+
+def run_gen(case):
+  """WorkerPool.iterate over plain generator tasks; the caller's generator_result_queue must receive every task's
+  return value exactly once, then the end marker."""
+  ns = L.setup()
+  cl = L.Cluster(case['workers'], case['plans'])
+  q = queue.SimpleQueue()
+  T = ns.lazy_fns.trace
+  tasks = [T(X.gen_task)(i, t['k'], t['rc']) for i, t in enumerate(case['tasks'])]
+  out = []
+  lat = _latency(cl, case)
+  try:
+    def body():
+      for b in cl.pool.iterate(iter(tasks), generator_result_queue=q, retry_threshold=case['threshold'],
+                               total_tasks=len(tasks)):
+        out.append(b)
+
+    limit = TIMEOUT if usable_by_plan(case['plans'], case['workers']) else 1.5
+    hang, _, exc = L.run_guarded(body, limit)
+    items = L.drain_queue(q, 0.05)
+    stops = [i for i, x in enumerate(items) if isinstance(x, Exception) and ns.iter_utils.is_stop_iteration(x)]
+    cut = stops[0] if stops else len(items)
+    return dict(outcome=outcome_of(hang, exc), batches=sorted(int(b) for b in out),
+                results=sorted(X.canon_value(x) for x in items[:cut]), markers=len(stops),
+                after_marker=len(items) - cut - (1 if stops else 0),
+                acquired=cl.acquired(), faults=dict(cl.delivered()), rejoins=cl.rejoins)
+  finally:
+    if lat is not None:
+      lat.close()
+    cl.close(hung=False)
+
+
+def run_shutdown(case):
+  """Sharded run in which worker X is stopped while its generator is inside a slow next()."""
+  import time as real_time
+  ns = L.setup()
+  cl = L.Cluster(case['workers'], case['plans'])
+  rq = queue.SimpleQueue()
+  gid = cl.names[0] + '/gates'
+  gates = X.new_gates(gid, [0, 1])
+  batches = []
+  info = dict(shutdown_inits=0, shutdown_next=0, resubmitted=False)
+  try:
+    def body():
+      for b in ns.orchestrate.sharded_pipelines_as_iterator(
+          cl.pool, X.gated_pipeline, num_shards=case['shards'], result_queue=rq,
+          retry_threshold=case['threshold'], n=case['n'], pipe=case['pipe'], gid=gid):
+        batches.append(b)
+
+    def steer():
+      # 1. shards 0 and 1 are both inside their slow read (one on each worker)
+      for s in (0, 1):
+        if not gates['started'][s].wait(5):
+          return
+      calls = cl.calls()
+      x = next((w for w, m, _ in calls if m == 'init_generator'), 0)   # the worker that took the first shard
+      info['x'] = x
+      mark = len(cl.world.log)
+      # 2. X is preempted (stop() = what SIGTERM does) in the middle of the slow read
+      cl.servers[x].stop()
+      # ... the pool notices the interrupted shard and re-submits it; X is the only idle worker
+      t0 = real_time.time()
+      while real_time.time() - t0 < 1.0:
+        late = [(m, o) for _, a, m, _, o in cl.world.log[mark:] if a == cl.names[x]]
+        if any(m == 'init_generator' for m, _ in late):
+          info['resubmitted'] = True
+          break
+        real_time.sleep(0.001)
+      # 3. the slow read ends: X goes away for real (and its death becomes known), the other worker goes on
+      for s in (0, 1):
+        gates['release'][s].set()
+      th = cl.servers[x].stop()
+      th.join(5)
+      late = [(m, o) for _, a, m, _, o in cl.world.log[mark:] if a == cl.names[x]]
+      info['shutdown_inits'] = sum(1 for m, o in late if m == 'init_generator' and o in ('ok', 'handler_raised'))
+      info['shutdown_next'] = sum(1 for m, o in late if m == 'next_batch_from_generator' and o in ('ok', 'handler_raised'))
+      info['x_ok_before'] = sum(1 for _, a, m, _, o in cl.world.log[cl.log0:mark] if a == cl.names[x] and m in L.COUNTED)
+      cl.kill(x)
+
+    import threading
+    st = threading.Thread(target=steer, daemon=True, name='steer')
+    st.start()
+    hang, _, exc = L.run_guarded(body, TIMEOUT)
+    st.join(6)
+    outcome = outcome_of(hang, exc)
+    results = L.drain_queue(rq, 2.0 if outcome == 'returned' else 0.15)
+    return dict(outcome=outcome, detail=(repr(exc.__cause__ or exc)[:160] if exc is not None else None),
+                batches=sorted(int(b) for b in batches),
+                results=[L.canon_agg(r.agg_result) for r in results],
+                acquired=cl.acquired(), faults=dict(cl.delivered()), rejoins=cl.rejoins, **info)
+  finally:
+    X.drop_gates(gid)
     cl.close(hung=False)
 
 
@@ -342,8 +538,10 @@ def oracle(case, obs):
   kind = case['kind']
   if obs['acquired']:
     return f"workers still acquired afterwards: {obs['acquired']} (outcome {obs['outcome']})"
-  if kind in ('sharded', 'f21'):
+  if kind in ('sharded', 'f21', 'shutdown'):
     return oracle_sharded(case, obs)
+  if kind == 'gen':
+    return oracle_gen(case, obs)
   if kind == 'ac':
     return oracle_ac(case, obs)
   if kind == 'run':
@@ -390,6 +588,48 @@ def oracle_sharded(case, obs):
     return None
   if out == 'RuntimeError':
     if not (task_error or app_errors):
+      return 'RuntimeError although no non-retriable error was injected'
+    return None
+  return f'unexpected exception kind {out}'
+
+
+def oracle_gen(case, obs):
+  """Every task's result is delivered exactly once - whatever the result is (0, '', [], {}, None are results)."""
+  out = obs['outcome']
+  want = collections.Counter(X.canon_value(X.RETURNS[t['rc']]) for t in case['tasks'])
+  got = collections.Counter(obs['results'])
+  want_b = collections.Counter(100 * i + j for i, t in enumerate(case['tasks']) for j in range(t['k']))
+  got_b = collections.Counter(obs['batches'])
+  app_errors = obs['faults'].get('app_error', 0)
+  if set(got_b) - set(want_b):
+    return f'foreign output records {sorted(set(got_b) - set(want_b))}'
+  if got - want:
+    return f'task results delivered twice or foreign: {sorted((got - want).elements())}'
+  if obs['after_marker']:
+    return f"{obs['after_marker']} items on the result queue after its end marker"
+  if out == 'hang':
+    if usable_by_plan(case['plans'], case['workers']):
+      return 'the run hangs although a worker stays usable'
+    return None
+  if obs['markers'] != 1:
+    return f"{obs['markers']} end markers on the result queue, expected exactly one"
+  if out == 'returned':
+    if app_errors:
+      return 'a non-retriable error was delivered but the iteration ended normally'
+    if _timeouts(obs) > case['threshold']:
+      return f"{_timeouts(obs)} timeouts exceed retry_threshold={case['threshold']} but no TimeoutError was raised"
+    if want - got:
+      return (f'task results never delivered: {sorted((want - got).elements())} (delivered: {sorted(got.elements())}); '
+              'every finished task owes the caller exactly one result')
+    if want_b - got_b:
+      return f'output records never delivered: {sorted((want_b - got_b).elements())}'
+    return None
+  if out == 'TimeoutError':
+    if _timeouts(obs) <= case['threshold']:
+      return f"TimeoutError although only {_timeouts(obs)} timeouts happened (retry_threshold={case['threshold']})"
+    return None
+  if out == 'RuntimeError':
+    if not app_errors:
       return 'RuntimeError although no non-retriable error was injected'
     return None
   return f'unexpected exception kind {out}'
@@ -454,6 +694,25 @@ def model_requests_obs(case, obs):
     if small:
       return [dict(req, op='it_explore', cap=60000)]
     return [dict(req, op='it_sample', runs=60, seed=len(str(case)))]
+  if kind == 'shutdown':
+    if obs.get('x') is None:
+      return []
+    nb = L.shard_sizes(case['n'], case['shards'])
+    plans = [[] for _ in range(case['workers'])]
+    # X: the calls answered before the stop, then one retriable answer per call it still answered while shutting
+    # down (shutdown replies are in the `deadline` class of the environment alphabet: theorem C06_shutdown_*), then gone
+    plans[obs['x']] = ['ok'] * obs['x_ok_before'] + ['deadline'] * (obs['shutdown_inits'] + obs['shutdown_next']) + ['die']
+    req = dict(model='sched', workers=case['workers'], nb=nb, threshold=case['threshold'], plans=plans)
+    if case['shards'] <= 2 and sum(nb) <= 4 and len(plans[obs['x']]) <= 8:
+      return [dict(req, op='it_explore', cap=60000)]
+    return [dict(req, op='it_sample', runs=80, seed=len(str(case)))]
+  if kind == 'gen':
+    nb = [t['k'] for t in case['tasks']]
+    req = dict(model='sched', workers=case['workers'], nb=nb, threshold=case['threshold'], plans=_model_plans(case),
+               strict=False)
+    if case['workers'] <= 2 and len(nb) <= 2 and sum(nb) <= 3:
+      return [dict(req, op='it_explore', cap=60000)]
+    return [dict(req, op='it_sample', runs=60, seed=len(str(case)))]
   if kind == 'ac':
     req = dict(model='sched', workers=case['workers'], tasks=case['tasks'], plans=_model_plans(case),
                bad=case['bad'], ignore_failures=bool(case.get('ignore')))
@@ -478,9 +737,15 @@ def project(case, obs):
   if kind == 'ac':
     f = lambda v: v // 2
     return dict(outcome={'Exception': 'TaskError'}.get(out, out), yielded=sorted(f(v) for v in obs['yielded']))
+  if kind == 'gen':
+    got = collections.Counter(obs['batches'])
+    complete = all(got[100 * i + j] >= 1 for i, t in enumerate(case['tasks']) for j in range(t['k']))
+    return dict(outcome=out, values=obs['results'], complete=complete,
+                task_values=[X.canon_value(X.RETURNS[t['rc']]) for t in case['tasks']])
   nb = L.shard_sizes(case['n'], case['shards'])
   starts = list(itertools.accumulate([0] + nb))
   fn = L.row_fn(case['pipe'])
+  sfn = L.seen_fn(case['pipe'])
   ref_batches = [fn(i) for i in range(case['n'])]
   got = collections.Counter(obs['batches'])
   complete = all(got[b] >= 1 for b in ref_batches)
@@ -489,7 +754,7 @@ def project(case, obs):
     result = []
     for s, size in enumerate(nb):
       if size:
-        result += [s] * seen.get(fn(starts[s]), 0)
+        result += [s] * seen.get(sfn(starts[s]), 0)
   else:
     result = 'ValueError'
   return dict(outcome=out, result=result, complete=complete)
@@ -504,6 +769,12 @@ def compare(obs, mobs):
   for t in mobs['terminals']:
     if obs['kind'] == 'ac':
       if t['outcome'] == p['outcome'] and t['yielded'] == p['yielded']:
+        return None
+    elif obs['kind'] == 'gen':
+      # the model delivers task IDS; the real queue holds their VALUES: the multiset of values must be the one of a
+      # terminal's delivered tasks (the model never looks at a value: theorem C06_results_whatever_value)
+      vals = sorted(p['task_values'][i] for i in t['result']) if isinstance(t['result'], list) else None
+      if t['outcome'] == p['outcome'] and vals == p['values'] and t['complete'] == p['complete']:
         return None
     else:
       res = t['result']
@@ -523,8 +794,63 @@ def compare(obs, mobs):
 
 def nontrivial(case, obs):
   f = obs.get('faults', {})
+  _cover(case, obs)
   return any(f.get(k, 0) for k in ('deadline', 'hung', 'app_error', 'cancelled')) or bool(case.get('bad')) \
-      or case.get('fail_at') is not None or case['kind'] == 'f21'
+      or case.get('fail_at') is not None or case['kind'] in ('f21', 'shutdown') \
+      or (case['kind'] == 'gen' and any(t['rc'] in X.FALSY for t in case['tasks']))
+
+
+# ------------------------------------------------------------------------------------------ promised coverage
+
+_ARMS = collections.Counter()
+REQUIRED_ARMS = ['gen:falsy-result-delivered', 'gen:falsy-result-after-retry', 'gen:every-falsy-class',
+                 'shutdown:init-answered-while-shutting-down', 'shutdown:next-answered-while-shutting-down',
+                 'shutdown:run-completed', 'latency:reply-held-back', 'multi-agg:sharded-returned',
+                 'multi-agg:after-retry']
+_FALSY_SEEN = set()
+
+
+def _cover(case, obs):
+  """Which promised arms this (case, observation) pair exercised (called in the main process for every case)."""
+  kind = case['kind']
+  f = obs.get('faults', {})
+  retried = any(f.get(k, 0) for k in ('deadline', 'hung', 'cancelled'))
+  if kind != 'run' and oracle(case, obs) is not None:
+    _ARMS['(oracle failed)'] += 1     # the verdict is a VIOLATION: the coverage promise is not what decides this run
+  if kind == 'gen' and obs['outcome'] == 'returned':
+    fal = [t['rc'] for t in case['tasks'] if t['rc'] in X.FALSY]
+    if fal:
+      _ARMS['gen:falsy-result-delivered'] += 1
+      _FALSY_SEEN.update(fal)
+      if _FALSY_SEEN >= set(X.FALSY):
+        _ARMS['gen:every-falsy-class'] += 1
+      if retried:
+        _ARMS['gen:falsy-result-after-retry'] += 1
+  if kind == 'shutdown':
+    if obs.get('shutdown_inits'):
+      _ARMS['shutdown:init-answered-while-shutting-down'] += 1
+    if obs.get('shutdown_next'):
+      _ARMS['shutdown:next-answered-while-shutting-down'] += 1
+    if obs['outcome'] == 'returned':
+      _ARMS['shutdown:run-completed'] += 1
+  if obs.get('hang_not_reproduced'):
+    _ARMS['(hang not reproduced with a 3x longer limit)'] += 1
+  if obs.get('delayed'):
+    _ARMS['latency:reply-held-back'] += 1
+  if kind == 'sharded' and case.get('pipe') in ('p3', 'p4') and obs['outcome'] == 'returned':
+    _ARMS['multi-agg:sharded-returned'] += 1
+    if retried:
+      _ARMS['multi-agg:after-retry'] += 1
+
+
+def extra(ctx):
+  """Coverage promise (else: infrastructure failure, not a verdict)."""
+  from harness.core import InfraError
+  for k, v in sorted(_ARMS.items()):
+    ctx.count('arm', k, v)
+  missing = [a for a in REQUIRED_ARMS if not _ARMS.get(a)]
+  if missing and not _ARMS.get('(oracle failed)'):
+    raise InfraError(f'C06 generator missed promised arms: {missing}')
 
 
 def finding(case, what):
@@ -548,6 +874,19 @@ def shrink(case, still_fails):
             break
       if changed:
         break
+  if cur['kind'] == 'gen':
+    i = 0
+    while len(cur['tasks']) > 1 and i < len(cur['tasks']):
+      cand = dict(cur, tasks=cur['tasks'][:i] + cur['tasks'][i + 1:])
+      if still_fails(cand):
+        cur = cand
+      else:
+        i += 1
+    for i, t in enumerate(cur['tasks']):
+      if t['k']:
+        cand = dict(cur, tasks=[dict(u, k=0) if j == i else u for j, u in enumerate(cur['tasks'])])
+        if still_fails(cand):
+          cur = cand
   return cur
 
 
